@@ -71,8 +71,7 @@ structure Geo where
   site : String → String → Option (List Param)
   ip : String → String → Option (List Param)
 
-/-- `strings.SplitN(val, ":", 2)` followed by `fields[0], fields[1]`; the real code panics when there
-is no colon (residue, see design note) — the model reports a load error. -/
+/-- `strings.SplitN(val, ":", 2)`; a value without a colon is a configuration error (`fix:` c54c420). -/
 def cutColon (s : String) : Option (String × String) :=
   match s.splitOn ":" with
   | a :: b :: rest => some (a, ":".intercalate (b :: rest))
@@ -247,6 +246,9 @@ structure Sem (δ : Type) where
   (`addDomain`, `addIp`, `addSourceIp`, `addSourceMac`, `addL4Proto`, `addIpVersion`, `addQName`)?
   Irrelevant for the meaning; the compiled form is proved correct for every choice. -/
   perValue : String → Bool := fun _ => false
+  /-- `consts.MaxMatchSetLen`, the size of the domain matcher's per-set tables (read from the code under
+  test by the harness; the theorems hold for every value). -/
+  maxMatchSets : Nat := 1024
 
 /-- one function call: its values are alternatives, `!` negates the disjunction. -/
 def holdsF {δ : Type} (S : Sem δ) (f : Func) : Bool :=
@@ -286,7 +288,8 @@ def userSem {δ : Type} (S : Sem δ) (g : Geo) (aliasing : Bool) : Sem δ :=
     guard := fun n => S.guard (preName aliasing n)
     emptyVal := fun n => S.emptyVal (preName aliasing n)
     parseOut := S.parseOut
-    perValue := S.perValue }
+    perValue := S.perValue
+    maxMatchSets := S.maxMatchSets }
 
 /-! ## Equality of programs up to the order and multiplicity of values and the order of conditions
 
@@ -386,23 +389,20 @@ def evGroup {δ : Type} (S : Sem δ) : Option Group → Bool
   | none => true
   | some (n, k, vs) => vs.any fun v => S.atom n ⟨k, v⟩
 
-/-- `consts.MaxMatchSetLen`: the domain matcher has per-set tables of this size; a domain match set at
-an index beyond it is a build error (`AhocorasickSlimtrie.AddSet`). -/
-def maxMatchSetLen : Nat := 1024
-
 def isDomainSet : Option Group → Bool
   | some (n, _, _) => n == "domain" || n == "qname"
   | none => false
 
-def domainSetTooFar {δ : Type} (es : List (Entry (Option Group) δ)) : Bool :=
-  (es.zipIdx).any fun (e, i) => isDomainSet e.cond && decide (maxMatchSetLen ≤ i)
+/-- a domain match set at an index ≥ `limit` is a build error (`AhocorasickSlimtrie.AddSet`). -/
+def domainSetTooFar {δ : Type} (limit : Nat) (es : List (Entry (Option Group) δ)) : Bool :=
+  (es.zipIdx).any fun (e, i) => isDomainSet e.cond && decide (limit ≤ i)
 
 /-- the compiled program run on one packet: `Apply`, `addFallback`, the matcher build, then the scan. -/
 def compiledDecision {δ : Type} (S : Sem δ) (p : Prog) (fb : δ) (must : Bool) : Option (δ × Bool) :=
   match lowerProg S.perValue S.parseOut p with
   | none => none
   | some es =>
-    if domainSetTooFar es then none
+    if domainSetTooFar S.maxMatchSets es then none
     else scanAux (evGroup S) (es ++ [⟨none, false, .final fb⟩]) false false must
 
 /-! ## `daedns.compileMatcher`: the compiled internal-selector matcher -/
